@@ -25,7 +25,7 @@ Fixpoint have_range (dir : list ltxrec) (lo : N) (n : nat) : bool :=
 
 Definition backup_decide (db_exists : bool) (lpos : pos) (dir : list ltxrec) (rpos : pos) : bdecision :=
   if negb db_exists then (if is_zero rpos then BNothing else BRestore 1)   (* unknown to both sides: not even considered *)
-  else if is_zero lpos then BNothing
+  else if is_zero lpos && is_zero rpos then BNothing       (* nothing on either side; an empty local database while the service holds data is a service that is ahead *)
   else if is_zero rpos then BSnapshot
   else if fst lpos <? fst rpos then BRestore 2
   else if fst rpos =? fst lpos then (if snd rpos =? snd lpos then BInSync else BRestore 3)
